@@ -62,3 +62,25 @@ package openapi3filter
 //@ func decodeBody
 //@   modifies *
 //@   preserves all(openapi3), ResponseValidationInput.Status, ResponseValidationInput.Options, ResponseValidationInput.RequestValidationInput, ResponseValidationInput.Header, ResponseValidationInput.Body, RequestValidationInput.*, Options.*, http.Request.Method, routers.Route.*
+
+// ---- one declared response header (C08): a required header that is absent is rejected, a header
+// that is present must decode and satisfy its schema, an optional absent header is accepted; a header
+// defined by "content" is only checked for presence. Decoding and the schema verdict are abstract
+// (defined by decodeValue and Schema.VisitJSON).
+//@ spec hdrFound(name string, s *openapi3.SchemaRef) bool
+//@ spec hdrDecodes(name string, s *openapi3.SchemaRef) bool
+//@ spec hdrValue(name string, s *openapi3.SchemaRef) any
+//@ trusted func (net/http.Header).Values (h, key)
+//@   pure
+//@ func decodeValue
+//@   modifies *
+//@   preserves all(openapi3), ResponseValidationInput.Status, ResponseValidationInput.Options, ResponseValidationInput.RequestValidationInput, ResponseValidationInput.Header, ResponseValidationInput.Body, RequestValidationInput.*, Options.*, http.Request.Method, routers.Route.*, []string
+//@   defines result.1 == hdrFound(param, schema)
+//@   defines (result.2 == nil) == hdrDecodes(param, schema)
+//@   defines result.0 == hdrValue(param, schema)
+//@ extend func validateResponseHeader
+//@   assuming headerRef != nil && headerRef.Value != nil && input != nil
+//@   assuming headerRef.Value.Schema != nil ==> headerRef.Value.Schema.Value != nil
+//@   ensures @C08 [schema-header] old(headerRef.Value.Schema) != nil ==> ((result == nil) <==> (hdrDecodes(headerName, old(headerRef.Value.Schema)) && (hdrFound(headerName, old(headerRef.Value.Schema)) ? visitOK(old(headerRef.Value.Schema.Value), hdrValue(headerName, old(headerRef.Value.Schema))) : !old(headerRef.Value.Required))))
+//@   option safety-tags C10
+//@   tag C08 C10
